@@ -11,6 +11,48 @@ BASE = ("Static structural necessary conditions of the property, decided from /r
 
 # id -> (implemented, technique, what is decided, what is not / trusted)
 CHECKS = {
+ "C01": (True, "abstract interpretation: CIGAR operator functions on symbolic arguments vs the SAM specification; bounded-exhaustive interpretation of the row pipeline, the record grouper (against a model of the biogo reader) and the window logic vs an independent projection",
+         "all nine operators of the no-insertion table for every q, r, n; rows of groups of one and two records over 3 start positions x 12 CIGAR strings (flattening, flank rewrite, pad); getNucFromSite on all sites of <=3 symbols; the flag filter on every 12-bit (thorough 16-bit) flag word; grouping and input index on all record streams of <=3 (thorough 4) records over two names; window validation and column selection; pool output re-ordered by index.",
+         "Trusted: go/types, go/ssa, checker/eval, the biogo API model (checker/rules/sammodel.go), checker/oracle. Bounded: longer CIGAR strings, more than two records per query and longer references are not enumerated. Not decided: biogo's own parsing."),
+ "C02": (True, "abstract interpretation: with-reference CIGAR operator functions on symbolic arguments; bounded-exhaustive interpretation of blockToPairwiseAlignment/blockToSeqPair (with Go append/alias semantics) vs an independent construction of the pairwise alignment",
+         "both with-reference operator tables for every q, r, n (query row, reference row, equal lengths); (reference row, query row) of groups of one and two records incl. insertions in either or both records; --skip-insertions equals the toMultiAlign --pad row; reference-coordinate cut on every gapped row of length <=6; stdout writer layout; pool output re-ordered.",
+         "Trusted: as C01. Bounded as C01; records inserting at the same reference position are outside the property and skipped."),
+ "C04": (True, "bounded-exhaustive abstract interpretation of GetVariantsPair vs an independent specification (IUPAC base sets, standard genetic code); codon dictionary extraction; region constructors interpreted on annotation values",
+         "no SNP dropped, none invented, aa records exactly the unambiguous differing translations, over every single-site change, codon double changes, all deletions of length 1..3, one/two insertions and both-gap columns on a 12-base reference under three annotations (forward, overlapping forward+reverse, joined); codon dictionary over all 3375 codons; for GenBank and GFF annotations (named, unnamed, overlapping, joined, reverse) every reference position is intergenic or in a scanned region.",
+         "Trusted: checker/eval, checker/oracle. Bounded family; longer references and other annotation shapes are not enumerated. Region Translation strings are trusted to be the reference translation (checked for the constructors under C14)."),
+ "C05": (True, "bounded-exhaustive abstract interpretation of getIndelsPair/GetMSAOffsets (through GetVariantsPair) vs an independent run-length specification in reference coordinates",
+         "ins:P:L / del:P:L for every deletion of length 1..3 (incl. those touching either end), one insertion after every position, two insertions at all position pairs, both-gap columns anywhere; invariance under added both-gap columns; gap-code literals equal the soft-gap code.",
+         "Trusted: checker/eval. Bounded family on a 12-base reference."),
+ "C06": (True, "bounded-exhaustive abstract interpretation of findClosest / findClosestN / rearrangeCatchment with the distance functions stubbed by a table (incl. NaN); SSA rules for result slots and fan-out; table extraction for the completeness score",
+         "the returned target(s) are the first K within D of the order (defined distance first, ascending distance, descending completeness, file position) for every target stream of <=3 (thorough 4) targets over distances {1,2,NaN} x scores {1,2}, K 1..n, D in {-1,1}; SNP list/qname/qidx belong to the returned pair; measure string dispatch; stable sort; results stored at their own qidx; sequential fan-out; score table = 12/|base set|.",
+         "Trusted: checker/eval, go/ssa. Bounded: the selection code touches distances and scores only through comparisons, so the streams realise every ordering pattern of that many targets; longer streams are not enumerated. The distance values themselves are C07."),
+ "C09": (True, "abstract interpretation of the round trip getLines -> list writer -> both CSV readers (against a csv.Reader model) on a bounded family; consumer field set computed from SSA; pool-consumer taint rule; slot-store rule",
+         "every field the ranking code reads (computed from SSA) is identical whether a record comes from FASTA or from the CSV the list writer produces, incl. the query input index, for all length-4 sequences over {A,C,G,N}; readers accept the writer's output; FASTA target conversion re-ordered by index, query conversion not a pool; results stored at the query's index; result qidx copied from the query's idx.",
+         "Trusted: checker/eval, the csv.Reader model (records already split; quoting is the library's). Not decided: byte identity of whole outputs for all option sets (follows from equal records plus C08 only informally)."),
+ "C11": (True, "abstract interpretation of both per-record workers on the same bounded family; SSA who-calls-whom rules",
+         "getVariantsSam and getVariants emit identical lists, names and indices on every pair/annotation of the C04/C05 family; both call GetVariantsPair, derive offsets with GetMSAOffsets, use the soft-gap table; sam variants builds rows with blockToPairwiseAlignment keeping insertions; both entry points use the same two writers.",
+         "Trusted: checker/eval, go/ssa. Not decided: the FASTA write->read round trip (C16) and toPairAlign itself (C02)."),
+ "C12": (True, "SSA taint rule for worker-pool consumers; classification of map iterations with order-reversal evaluation harnesses; who-may-call rule for nondeterminism sources",
+         "for every entry point with a worker pool, data derived from an item received from the pool reaches output only through an index-keyed re-order buffer, a slot store at the item's own index, an aggregation map or a per-item file; every map iteration is guarded by len==1, commutative, or its routine gives identical results under forward and reversed map order on inputs with ties; no math/rand / time.Now / pid in pkg/; NumCPU only sizes pools and buffers.",
+         "NOT decided: data-race freedom (no sound static race analysis with the installed tools; the race detector is a runtime tool). Reversal stands in for all permutations. Trusted: go/ssa, checker/eval."),
+ "C13": (True, "abstract interpretation of the aggregate writers and the per-sequence writers on the same bounded feed families; the per-sequence writer's rows are the oracle",
+         "aggregate output = mutations whose count over the per-sequence rows / number of rows (reference excluded) >= threshold, each once, frequency printed with FormatFloat('f',9,64), non-decreasing position, for all feeds of <=3 sequences from fixed mutation lists x thresholds {0,0.5,1} x windows x --append-snps; numeric position order for snps.",
+         "Trusted: checker/eval. Assumes a mutation occurs at most once per sequence's list. Bounded families."),
+ "C14": (True, "abstract interpretation of RegionsFromGenbank / RegionsFromGFF on equivalent annotation values and, end to end, of ReadGenBank / ReadGFF on equivalent file texts (scanner model); independent location-expression reader",
+         "eight layouts (forward, overlapping, complement, join with lengths 4+8 and 6+6, complement(join), codon_start=2 / phase 1, extra non-CDS features): same regions (name, strand, start, stop, ordered positions, translation) and intergenic lists from both formats, equal to the independent reading; three layouts from file text; GetPositions/IsReverse on eight location shapes.",
+         "Trusted: checker/eval, the scanner/bytes/regexp models. Not decided (the larger part): location syntaxes outside these shapes ('<' '>' markers, multi-line locations, deeper nesting), GFF rows not in ascending order."),
+ "C15": (True, "bounded-exhaustive abstract interpretation of each option-handling routine (they only compare/index with their numeric arguments)",
+         "sam.checkArgs on all (refLen<=4, start, end in -2..6); getFastaRecord on every row of length <=4 (thorough 5) over {A,C,*,-} x every window x pad; legacy flag reconciliation on all flag combinations; trimAlignment on every gapped row of length <=6 x every window; wrap / WriteWrapAlignment on all (length<=7, width<=8); window predicate of both variant writers for every set/unset combination; writer start index under stdin and where the flag is set.",
+         "Trusted: checker/eval, go/ssa. Bounded small scope; stdin equality is decided at the writer and flag level, not by reading a pipe."),
+ "C16": (True, "abstract interpretation of the five FASTA readers against a model of bufio.Scanner on families of line layouts vs a reader-independent specification",
+         "same records (ID, description, sequence, index; score and A/C/G/T counts for the scoring reader) under every re-wrapping and letter case, both gap modes; every byte value inside a sequence accepted iff IUPAC (validating readers); unequal lengths at a boundary/at the end, empty input, missing header rejected; blank lines and empty headers never index out of range; findReference finds the named record layout-independently; default split function; Scanner.Err consulted.",
+         "Trusted: bufio.ScanLines' contract (LF/CRLF removal), checker/eval. Not decided: arbitrary byte streams beyond these families (e.g. the 1 MiB line limit), absence of hangs."),
+ "C18": (True, "SSA rules: error propagation (returned or sent; channel drained into a return), wait-also-listens with safe-bare-receive reachability, structural guard rules; plus the evaluated rows shared with C01/C08/C09/C15/C16",
+         "every internal error is returned/sent by each caller; every error sent is received into a return by the channel's creator; cmd.Execute exits 1; every blocking select in a function owning an error channel listens on it, every bare receive is provably safe; single-record --reference guards (5), query/target width guards, file-type switches have error defaults; FASTA/CSV/SAM readers and option checks reject the listed corruptions (interpreted).",
+         "Trusted: go/ssa (static callees; no dynamic dispatch on these paths), checker/eval. Not decided: promptness, partial output before the error, corruptions not in the property's list."),
+ "C19": (True, "SSA dataflow: every Write-like call to an output destination has its error bound and flowing to a return or an error-channel send that the creator drains; propagation along the static call graph to the cobra RunE closures; exit status",
+         "44 write sites in 13 writer functions; 14 propagation call sites; cmd.Execute -> os.Exit(1).",
+         "Trusted: go/ssa. (*os.File).Close on outputs is outside the rule (unbuffered writes). A wait that does not listen for errors is C18's B3."),
  "C03": (True, "abstract interpretation of the per-record worker: per-column transfer function over all 17x17 symbol pairs in both gap modes vs IUPAC base-set oracle; constant-table extraction; SSA argument-flow for the flag",
          "encoding/decoding tables over all bytes and pairs; getSNPs appends exactly ref+pos+alt iff base sets are disjoint, for every symbol pair and both gap modes, with the 1-based ascending loop index; row carries record id/index; unequal width goes to the error channel; --hard-gaps reaches both readers and selects the hard-gap table; pool output is index re-ordered.",
          "Trusted: go/types, go/ssa, checker/eval, checker/oracle. Not decided: FASTA reading itself (C16), the writer's byte layout beyond the constructs checked under C12/C19."),
